@@ -1,6 +1,55 @@
 import LitexProofs.Axi.Burst2BeatSys
 import LitexProofs.Axi.WidthConv
 import LitexProofs.Axi.WidthConvData
+import LitexProofs.Axi.WidthConvSide
+import LitexProofs.Axi.WidthConvMem
+/-
+  INVENTORY of the code C10 is anchored in (litex/soc/interconnect/axi/axi_full.py unless noted) — session 2.
+  "tie": A = exhaustive product co-exploration with the Lean driver, B = random lock-step co-simulation,
+         C = differential of a pure function (call), E = whole bursts through the real converter, P = probe.
+  ------------------------------------------------------------------------------------------------------------------
+  code                                   | Lean model                         | theorems here                  | tie
+  ---------------------------------------+------------------------------------+--------------------------------+-----
+  AXIBurst2Beat (regs, comb, sync, caps) | Axi.b2b / Axi.sys (Burst2Beat.lean)| b2b_beats, b2b_invariant,      | A all
+    incl. 4 KB page, WRAP 2/4/8/16,      |  every truncation explicit; no     | b2b_consumed_with_last_beat,   | 32768 requests
+    all sizes 0..7, FIXED, reduced caps  |  data-width parameter exists in    | offset_fits, wrap_detect_iff,  | of the box, B
+    (the module has NO data-width        |  the code: theorems are for all    | b2b_fixed, b2b_no_bubble,      | aw 13..64,
+    parameter: size < 8 covers all bus   |  aw >= 12, all len/size/burst      | b2b_addr_exact,                | axi3 ports,
+    widths up to 1024 bit)               |                                    | b2b_incr_stays_in_page (new)   | open loop
+  A3.4.1 (spec side)                     | axiSpecAddr/Legal/burstBytes       | (definitions the theorems are  | C vs Python
+                                         |  (BurstSpec.lean)                  |  stated against)               | transcription
+  AXIUpConverter AW/AR (len>>k, size+k)  | upAx (WidthConv.lean)              | upconv_arith_partial,          | C 15 instances
+                                         |                                    | upconv_wrap_partial, UpRegion, | aw/ar, garbage
+                                         |                                    | upconv_len_not_multiple_neg    | on idle channel
+  AXIDownConverter convert_addr/len/     | downAx (WidthConv.lean)            | downconv_arith_partial/_aligned| C (same), P x4
+    size/burst                           |                                    | downconv_wrap_partial,         |
+                                         |                                    | downconv_single_partial,       |
+                                         |                                    | downconv_len_overflow_neg (new)|
+  W/R StrideConverters of both           | laneUp/laneDown = Stream.upConv/   | w_beats_up, w_up_burst,        | A 8<->16(32),
+    converters (stream._UpConverter/     |  downConv (shared with C03)        | w_beats_down, w_down_last      | B 8 widths
+    _DownConverter)                      |                                    |                                |
+  byte-lane placement, strobes, data     | BWord, beatWrites/burstWrites/     | incr_burst_byte_stream,        | E: Lean
+    end to end (AW/AR + W/R together)    |  burstReads, memApply, upWords/    | upconv_lane_placement,         | burstWrites vs
+                                         |  downWords (WidthConvMem.lean) new | downconv_lane_placement,       | Python oracle on
+                                         |                                    | upconv_write_e2e_partial,      | both sides and
+                                         |                                    | downconv_write_e2e_partial,    | upWords/downWords
+                                         |                                    | upconv_read_e2e_partial (new)  | vs real W/R beats
+  side-bands resp/id/user/dest of W/R    | sideReg (down R: always-loading    | downR_sideband_unstalled_      | A 8<->16 x4,
+    (comb in AXIUpConverter and down W,  |  register), sideCombUp (up W),     |  partial, sideIdeal_words,     | B 5(9) widths,
+    self.sync every edge in down R)      |  sideCombDown (down W, up R)       | sideband_comb_down, negative   | first-cycle
+                                         |  (WidthConvSide.lean) new          | witnesses (stall, up W, resp   | alignment
+                                         |                                    | merging)                       | monitor
+  B channel, AW/AR valid/ready and       | - (wires)                          | -                              | C passthrough
+    id/lock/prot/cache/qos/region        |                                    |                                | differential
+  AXIConverter (selection glue)          | - (elaboration-time choice)        | -                              | instances built
+                                         |                                    |                                | via AXIConverter
+  axi_common BURST_* encodings           | BURST_* (Burst2Beat.lean)          | -                              | constants_check
+  axi_common AXSIZE table (32 -> 0b110,  | not modelled: unused by the code   | -                              | -
+    64 -> 0b111: wrong, but unused)      |                                    |                                |
+  AXI2AXILite burst expansion            | belongs to C09 (uses Burst2Beat)   | C09: axi2axl_partial           | C09
+  AXIRemapper/Timeout/Arbiter/Decoder/…  | other properties (C08/C11)         |                                |
+  ------------------------------------------------------------------------------------------------------------------
+-/
 /-
   C10 — AXI bursts are expanded and resized according to the AXI address rules.
 
@@ -368,5 +417,263 @@ example :
     (e.delivered e.init ins).map (fun t => (t.data.1, t.last)) = [(1, false), (2, false), (3, false), (4, true)] := by
   refine ⟨?_, by decide⟩
   simp [Elem.Held, Elem.Meets, Elem.obl, Elem.out, Elem.step, Stream.downConv]
+
+/-! ### AXIBurst2Beat and the 4 KB page -/
+
+/-- `b2b_incr_stays_in_page`: every transfer address A3.4.1 prescribes for a legal INCR burst lies in the 4 KB page
+    of the start address - together with `b2b_beats` (beats = the prescribed ones at size granularity) the module
+    never leaves the page.  All sizes 0..7, i.e. every data width the AXI4 size field can express. -/
+theorem b2b_incr_stays_in_page (aw : Nat) (r : Req) (hleg : Legal aw r BURST_INCR) (k : Nat) (hk : k ≤ r.len) :
+    axiSpecAddr r.addr r.len r.size BURST_INCR k / 4096 = r.addr / 4096 := by
+  obtain ⟨_, _, _, h4⟩ := hleg
+  rw [if_pos rfl] at h4
+  unfold axiSpecAddr
+  rw [if_pos rfl]
+  split
+  · rfl
+  · unfold alignedAddr at *
+    generalize hn : numBytes r.size = n at *
+    have hnpos : 0 < n := by rw [← hn]; exact Nat.two_pow_pos _
+    have h1 : r.addr / n * n ≤ r.addr := Nat.div_mul_le_self _ _
+    have h2 : r.addr < r.addr / n * n + n := by
+      have := Nat.lt_div_mul_add (a := r.addr) hnpos; omega
+    have h3 : k * n ≤ r.len * n := Nat.mul_le_mul_right _ hk
+    rw [Nat.succ_mul] at h4
+    generalize r.addr / n * n = al at *
+    generalize k * n = kn at *
+    generalize r.len * n = ln at *
+    omega
+
+/-- Beyond legality (a burst that would cross the page: 33 × 128 bytes): when the running offset reaches 4096 the
+    13-bit signed register wraps to −4096 and the beat is presented 8 KB below where it belongs (0x1000 instead of
+    0x3000) - the reason `Legal` (no 4 KB crossing) is a hypothesis of the b2b theorems. -/
+example :
+    let r : Req := ⟨0x2000, 32, 7, BURST_INCR, 0⟩
+    (b2bNext Caps.all 16 ⟨31, 3968⟩ ⟨true, r, true⟩) = ⟨32, -4096⟩ ∧ beatAddr 16 r ⟨32, -4096⟩ = 0x1000 ∧
+    axiSpecAddr 0x2000 32 7 BURST_INCR 32 = 0x3000 ∧ ¬ Legal 16 r BURST_INCR := by decide
+
+/-! ### Width converters: boundary of the byte-preserving region, both sides -/
+
+/-- The region in which `AXIUpConverter` is correct for INCR bursts, as a decidable predicate. -/
+def UpRegion (k : Nat) (r : Req) : Prop :=
+  r.burst = BURST_INCR ∧ r.size + k < 8 ∧ r.addr % numBytes (r.size + k) = 0 ∧ (r.len + 1) % 2 ^ k = 0
+
+instance (k : Nat) (r : Req) : Decidable (UpRegion k r) := by unfold UpRegion; infer_instance
+
+/-- Outside, along the length axis (witness FAMILY, every ratio, every such burst): an aligned INCR burst whose
+    length is not a multiple of the ratio is forwarded as a burst over strictly more bytes. -/
+theorem upconv_len_not_multiple_neg (k : Nat) (r : Req) (hb : r.burst = BURST_INCR) (hs : r.size + k < 8)
+    (hal : r.addr % numBytes (r.size + k) = 0) (hmul : (r.len + 1) % 2 ^ k ≠ 0) :
+    (burstBytes r.addr r.len r.size r.burst).length
+      < (burstBytes (upAx k r).addr (upAx k r).len (upAx k r).size (upAx k r).burst).length := by
+  have hal2 : r.addr % numBytes r.size = 0 := by
+    have : numBytes r.size ∣ numBytes (r.size + k) := by
+      unfold numBytes; exact Nat.pow_dvd_pow 2 (Nat.le_add_right _ _)
+    exact Nat.mod_eq_zero_of_dvd (Nat.dvd_trans this (Nat.dvd_of_mod_eq_zero hal))
+  have hsz : (r.size + k) % 8 = r.size + k := Nat.mod_eq_of_lt hs
+  simp only [upAx, hb, hsz]
+  rw [incr_bytes_aligned _ _ _ hal, incr_bytes_aligned _ _ _ hal2, List.length_range', List.length_range']
+  unfold numBytes
+  rw [Nat.pow_add, ← Nat.mul_assoc, Nat.mul_right_comm]
+  apply Nat.mul_lt_mul_of_pos_right _ (Nat.two_pow_pos _)
+  rw [Nat.mul_comm _ (2 ^ k)]
+  have hpos : 0 < 2 ^ k := Nat.two_pow_pos k
+  have h1 := Nat.div_add_mod r.len (2 ^ k)
+  have h2 := Nat.mod_lt r.len hpos
+  have hne : r.len % 2 ^ k + 1 ≠ 2 ^ k := by
+    intro h
+    apply hmul
+    have : r.len + 1 = 2 ^ k * (r.len / 2 ^ k + 1) := by rw [Nat.mul_add]; omega
+    rw [this]; exact Nat.mul_mod_right _ _
+  rw [Nat.mul_add]
+  omega
+
+/-- Outside, along the alignment axis: concrete witness at byte level (known finding
+    C10-upconv-unaligned-single-beat; address channel + data path together): the single strobed beat at 0x4 reaches
+    no byte 4..7 on the wide side. -/
+example :
+    let w : BWord := [(0xef, true), (0xbe, true), (0xad, true), (0xde, true)]
+    let r : Req := ⟨0x4, 0, 2, BURST_INCR, 0⟩
+    ¬ UpRegion 1 r ∧
+    burstWrites 4 r [w] = [(4, 0xef), (5, 0xbe), (6, 0xad), (7, 0xde)] ∧
+    burstWrites 8 (upAx 1 r) (upWords 2 [w]) = [] := by decide
+
+/-- Down-converter, outside along the length axis (witness FAMILY; known finding C10-downconv-len-overflow): whenever
+    `(len+1)·ratio` exceeds 256 the forwarded burst has fewer beats than the `ratio` narrow beats per wide beat the
+    data path emits. -/
+theorem downconv_len_overflow_neg (sf st : Nat) (r : Req) (hover : 256 < (r.len + 1) * 2 ^ (sf - st)) :
+    (downAx sf st r).len + 1 < (r.len + 1) * 2 ^ (sf - st) := by
+  have : ((r.len + 1) * 2 ^ (sf - st) - 1) % 256 < 256 := Nat.mod_lt _ (by decide)
+  simp only [downAx]
+  omega
+
+/-! ### Width converters end to end: byte lanes, strobes, memory -/
+
+/-- `incr_burst_byte_stream`: on a `2^size`-byte bus the ordered byte writes of a full-width INCR burst (any start
+    address) are the bytes of all its data words, laid out consecutively from the start address, beginning with lane
+    `addr mod bus` of the first word; strobed-off lanes are skipped.  (Cutting the byte stream into beats
+    differently cannot change it - the reason both converters are byte-preserving.) -/
+theorem incr_burst_byte_stream (r : Req) (words : List BWord) (hb : r.burst = BURST_INCR)
+    (hlen : words.length = r.len + 1) (hw : ∀ w ∈ words, w.length = numBytes r.size) :
+    burstWrites (numBytes r.size) r words = laneWrites r.addr (words.flatten.drop (r.addr % numBytes r.size)) :=
+  incr_burstWrites (numBytes r.size) r words hb rfl hlen hw
+
+/-- `upconv_lane_placement` (every ratio `R > 0`, by induction over the groups): a burst of `n·R` narrow beats,
+    written as `W.flatten` with `W` the beats grouped `R` at a time, leaves the `_UpConverter` as the `n` wide
+    words `W.map flatten`: narrow beat `m·R + q` sits in byte lanes `q·nb … q·nb + nb − 1` of wide word `m`, data
+    and strobes alike, nothing left over. -/
+theorem upconv_lane_placement (R : Nat) (hR : 0 < R) (W : List (List BWord)) (hne : W ≠ [])
+    (hg : ∀ g ∈ W, g.length = R) : upWords R W.flatten = W.map List.flatten :=
+  upWords_groups R hR W hne hg
+
+/-- `downconv_lane_placement`: the `_DownConverter` emits lane groups `0 … R−1` of every wide word in order. -/
+theorem downconv_lane_placement (nb R : Nat) (W : List (List BWord)) (hg : ∀ g ∈ W, g.length = R)
+    (hw : ∀ g ∈ W, ∀ w ∈ g, w.length = nb) : downWords nb R (W.map List.flatten) = W.flatten :=
+  downWords_groups nb R W hg hw
+
+/-- `upconv_write_e2e_partial`.  Full statement (false on the code, see the witnesses above): *every legal write
+    burst through AXIUpConverter commits the same bytes in the same order.*  Proved inside `UpRegion` for every
+    ratio `2^k`, every size, every data and strobe pattern: the forwarded address channel `upAx k r` together with
+    the wide words the data path produces commits exactly the ordered byte writes of the original burst - hence any
+    reference memory ends in the same state (refinement). -/
+theorem upconv_write_e2e_partial (k : Nat) (r : Req) (W : List (List BWord)) (hreg : UpRegion k r)
+    (hW : W.length * 2 ^ k = r.len + 1) (hg : ∀ g ∈ W, g.length = 2 ^ k)
+    (hw : ∀ g ∈ W, ∀ w ∈ g, w.length = numBytes r.size) :
+    burstWrites (numBytes (r.size + k)) (upAx k r) (upWords (2 ^ k) W.flatten)
+      = burstWrites (numBytes r.size) r W.flatten ∧
+    ∀ mem, memApply mem (burstWrites (numBytes (r.size + k)) (upAx k r) (upWords (2 ^ k) W.flatten))
+      = memApply mem (burstWrites (numBytes r.size) r W.flatten) := by
+  obtain ⟨hb, hs, hal, _⟩ := hreg
+  have hne : W ≠ [] := by
+    intro h; subst h; simp at hW
+  have h := up_burstWrites k r W hb hs hal hW hg hw
+  rw [upWords_groups (2 ^ k) (Nat.two_pow_pos k) W hne hg]
+  exact ⟨h, fun mem => by rw [h]⟩
+
+/-- non-vacuity: 16 → 32 bit, two strobed-partially beats at 0x10 become one wide word; bytes in order. -/
+example :
+    let W : List (List BWord) := [[[(1, true), (2, false)], [(3, true), (4, true)]]]
+    let r : Req := ⟨0x10, 1, 1, BURST_INCR, 0⟩
+    UpRegion 1 r ∧ upWords 2 W.flatten = [[(1, true), (2, false), (3, true), (4, true)]] ∧
+    burstWrites 4 (upAx 1 r) (upWords 2 W.flatten) = [(0x10, 1), (0x12, 3), (0x13, 4)] := by decide
+
+/-- `downconv_write_e2e_partial`: full-width INCR bursts with `(len+1)·ratio ≤ 256`, ANY start address inside the
+    first wide word (the forwarded burst starts at the aligned address; the master's strobes below the start address
+    are low, A3.4.3): the forwarded burst with the narrow beats the data path emits commits the same ordered byte
+    writes; any reference memory ends in the same state. -/
+theorem downconv_write_e2e_partial (sf st : Nat) (r : Req) (W : List (List BWord)) (hst : st ≤ sf)
+    (hb : r.burst = BURST_INCR) (hs : r.size = sf) (hfit : (r.len + 1) * 2 ^ (sf - st) ≤ 256)
+    (hW : W.length = r.len + 1) (hg : ∀ g ∈ W, g.length = 2 ^ (sf - st))
+    (hw : ∀ g ∈ W, ∀ w ∈ g, w.length = numBytes st)
+    (hstrb : ∀ x ∈ W.flatten.flatten.take (r.addr % numBytes sf), x.2 = false) :
+    burstWrites (numBytes st) (downAx sf st r) (downWords (numBytes st) (2 ^ (sf - st)) (W.map List.flatten))
+      = burstWrites (numBytes sf) r (W.map List.flatten) ∧
+    ∀ mem, memApply mem (burstWrites (numBytes st) (downAx sf st r)
+        (downWords (numBytes st) (2 ^ (sf - st)) (W.map List.flatten)))
+      = memApply mem (burstWrites (numBytes sf) r (W.map List.flatten)) := by
+  have h := down_burstWrites sf st r W hst hb hs hfit hW hg hw hstrb
+  rw [downWords_groups (numBytes st) (2 ^ (sf - st)) W hg hw]
+  exact ⟨h, fun mem => by rw [h]⟩
+
+/-- non-vacuity, unaligned start: 32 → 16 bit, one 4-byte beat at 0x11 (lane 0 not strobed). -/
+example :
+    let W : List (List BWord) := [[[(9, false), (2, true)], [(3, true), (4, true)]]]
+    let r : Req := ⟨0x11, 0, 2, BURST_INCR, 0⟩
+    downAx 2 1 r = ⟨0x10, 1, 1, BURST_INCR, 0⟩ ∧
+    burstWrites 2 (downAx 2 1 r) (downWords 2 2 (W.map List.flatten)) = [(0x11, 2), (0x12, 3), (0x13, 4)] ∧
+    burstWrites 4 r (W.map List.flatten) = [(0x11, 2), (0x12, 3), (0x13, 4)] := by decide
+
+/-- Why the strobe hypothesis: a master that (illegally) strobes a lane below the start address gets that byte
+    written by the forwarded burst although its own burst does not cover it. -/
+example :
+    let W : List (List BWord) := [[[(9, true), (2, true)], [(3, true), (4, true)]]]
+    let r : Req := ⟨0x11, 0, 2, BURST_INCR, 0⟩
+    burstWrites 2 (downAx 2 1 r) (downWords 2 2 (W.map List.flatten)) = [(0x10, 9), (0x11, 2), (0x12, 3), (0x13, 4)] ∧
+    burstWrites 4 r (W.map List.flatten) = [(0x11, 2), (0x12, 3), (0x13, 4)] := by decide
+
+/-- `upconv_read_e2e_partial`: read data through AXIUpConverter inside `UpRegion`: the narrow R beats the master
+    receives (the `_DownConverter`'s output for the wide R beats of the forwarded burst) deliver, byte address by
+    byte address and in order, what the wide beats carry for the forwarded burst. -/
+theorem upconv_read_e2e_partial (k : Nat) (r : Req) (W : List (List BWord)) (hreg : UpRegion k r)
+    (hW : W.length * 2 ^ k = r.len + 1) (hg : ∀ g ∈ W, g.length = 2 ^ k)
+    (hw : ∀ g ∈ W, ∀ w ∈ g, w.length = numBytes r.size) :
+    burstReads (numBytes r.size) r (downWords (numBytes r.size) (2 ^ k) (W.map List.flatten))
+      = burstReads (numBytes (r.size + k)) (upAx k r) (W.map List.flatten) := by
+  obtain ⟨hb, hs, hal, _⟩ := hreg
+  rw [downWords_groups (numBytes r.size) (2 ^ k) W hg hw]
+  exact up_burstReads k r W hb hs hal hW hg hw
+
+/-! ### Width converters: side-bands (resp / id / user / dest) -/
+
+/-- `downR_sideband_unstalled_partial`.  Full statement (false on the code): *every wide R beat of AXIDownConverter
+    carries resp/id/user/dest of the narrow beat that completed it.*  Proved for every run in which the master
+    takes each wide beat in the first cycle it is offered (`NoStall`): in every cycle the ports of the code's model
+    (side-band register loaded on EVERY clock edge) equal those of the ideal converter that latches the side-band
+    together with the sub-word (`Stream.upConv` with the side-band as `param`). -/
+theorem downR_sideband_unstalled_partial (ratio : Nat) (xs : List (SideIn (Nat × Unit))) (x : SideIn (Nat × Unit))
+    (hns : NoStall ratio (sideRegInit ratio) (xs ++ [x])) :
+    let o := sideRegOut ratio ((sideReg ratio).run xs) x
+    let o' := (sideIdeal ratio).out ((sideIdeal ratio).runFrom (sideIdeal ratio).init (xs.map SideIn.ideal)) x.ideal
+    o.1.ready = o'.ready ∧ o.1.valid = o'.valid ∧ o.1.tok.first = o'.tok.first ∧ o.1.tok.last = o'.tok.last ∧
+    o.1.tok.data.lanes = o'.tok.data.lanes ∧ o.1.tok.data.count = o'.tok.data.count ∧
+    (o.1.valid = true → o.2 = o'.tok.data.param) := by
+  obtain ⟨h1, _⟩ := noStall_append ratio xs [x] (sideRegInit ratio) hns
+  exact sideSim_out ratio _ _ x (sideSim_run ratio xs _ _ (sideSim_init ratio) h1)
+
+/-- `sideIdeal_words`: what that ideal delivers (every schedule): the greedy chunks of the accepted narrow beats, each
+    word with the side-band of its LAST sub-word (`wordOf`: `param` of the closing beat). -/
+theorem sideIdeal_words (ratio : Nat) (hr : 0 < ratio) (ins : List (In (Nat × SB))) :
+    let e := sideIdeal ratio
+    (chunks ratio (e.accepted e.init ins)).map (wordOf SB.zero) =
+      (e.delivered e.init ins).map upView ++ (e.runFrom e.init ins).inflight :=
+  (rel_run_init (sideIdeal ratio) (upRel ratio SB.zero)
+    ⟨by simp [Stream.upConv, UpState.inflight], by simp [Stream.upConv], by simpa [Stream.upConv] using hr,
+     by simp [Stream.upConv], by simp [Stream.upConv], by simp [Stream.upConv]⟩
+    (upConv_step ratio hr 0 SB.zero) ins).1
+
+/-- Response merging: the word takes the resp of the closing beat - NOT the worst one: SLVERR (2) on the first of two
+    narrow beats is dropped, the wide beat reports OKAY.  (Behaviour of the code even without any stall; outside
+    the C10 statement, reported as an observation.) -/
+example :
+    wordOf SB.zero [⟨(0xaa, (⟨2, 1, 0, 0⟩ : SB)), false, false⟩, ⟨(0xbb, ⟨0, 1, 0, 0⟩), false, true⟩]
+      = ⟨([0xaa, 0xbb], ⟨0, 1, 0, 0⟩), false, true⟩ := by decide
+
+/-- non-vacuity of `downR_sideband_unstalled_partial`: ratio 2, two bursts with ids 1 and 2, never stalled. -/
+example :
+    let b (v : Bool) (d id : Nat) (l r : Bool) : SideIn (Nat × Unit) := ⟨⟨v, ⟨(d, ()), false, l⟩, r⟩, ⟨0, id, 0, 0⟩⟩
+    let xs := [b true 1 1 false true, b true 2 1 true true, b true 3 2 false true, b true 4 2 true true,
+               b false 0 3 false true]
+    NoStall 2 (sideRegInit 2) xs ∧
+    ((sideReg 2).trace xs).map (fun o => (o.1.valid, o.2.id)) = [(false, 0), (false, 1), (true, 1), (false, 2), (true, 2)] := by
+  decide
+
+/-- Negative witness (stall): ratio 2, the wide beat completed by a beat with id 1 is offered in cycle 2 and stalled;
+    the narrow side already presents the next burst (id 2, not accepted: `sink.ready = 0`); in cycle 3 the SAME
+    wide beat (same lanes, still valid) is offered - and taken - with id 2.  resp/user/dest behave alike. -/
+example :
+    let b (v : Bool) (d id : Nat) (l r : Bool) : SideIn (Nat × Unit) := ⟨⟨v, ⟨(d, ()), false, l⟩, r⟩, ⟨0, id, 0, 0⟩⟩
+    let xs := [b true 1 1 false true, b true 2 1 true true, b true 3 2 false false, b true 3 2 false true]
+    ¬ NoStall 2 (sideRegInit 2) xs ∧
+    ((sideReg 2).trace xs).map (fun o => (o.1.ready, o.1.valid, o.1.tok.data.lanes, o.2.id))
+      = [(true, false, [0, 0], 0), (true, false, [1, 0], 1), (false, true, [1, 2], 1), (true, true, [1, 2], 2)] := by
+  decide
+
+/-- `sideband_comb_down` (W path of AXIDownConverter, R path of AXIUpConverter): data and side-band are both
+    combinational - every narrow beat offered carries the side-band of the wide beat on the sink, in every state
+    and cycle. -/
+theorem sideband_comb_down (ratio : Nat) (mux : Nat) (x : SideIn (List Nat × Unit)) :
+    (sideCombDownOut ratio mux x).2 = x.sb ∧ (sideCombDownOut ratio mux x).1 = (laneDown ratio).out mux x.i :=
+  ⟨rfl, rfl⟩
+
+/-- W path of AXIUpConverter: id/dest/user are wires while the data goes through the 1-cycle `_UpConverter`: the wide
+    W beat is offered with whatever the narrow side drives in THAT cycle, not with the side-band of its own beats
+    (here: beats sent with user 1, wide beat offered with user 0).  AXI4 has no WID; WUSER is optional - outside the
+    C10 statement, reported as an observation. -/
+example :
+    let b (v : Bool) (d user : Nat) (l : Bool) : SideIn (Nat × Unit) := ⟨⟨v, ⟨(d, ()), false, l⟩, true⟩, ⟨0, 0, user, 0⟩⟩
+    let xs := [b true 1 1 false, b true 2 1 true, b false 0 0 false]
+    ((sideCombUp 2).trace xs).map (fun o => (o.1.valid, o.1.tok.data.lanes, o.2.user))
+      = [(false, [0, 0], 1), (false, [1, 0], 1), (true, [1, 2], 0)] := by
+  decide
 
 end Litex.C10
